@@ -3,11 +3,82 @@
 // Machine-checked contracts for package gates (comment-only, build tag `verif`).
 package gates
 
+// ------------------------------------------------------------------ gate identifiers (C18)
+// Identifier families.  `fam` selects one; a, b, c are the decimal parameters exactly as Rust's Debug
+// prints a usize (no sign, no leading zeros), w is the weight list of the coset-interpolation gate.
+// Families 0..13 are the identifiers plonky2 emits for the fourteen supported gates (Debug derive of
+// the gate struct, plus the `<D=..>` / `<WIDTH=..>` / ` + Base: ..` suffix its id() adds).
+// Families 14.. are identifiers this verifier does not implement: plonky2's lookup gates, the gates of
+// the u32 gadget crate (crypto/plonky2_u32/src/gates/*.rs), and the three gates whose identifier
+// carries the extension degree, with a degree other than 2.
+//@ def idnum(x) = inre(x, `0|[1-9][0-9]*`) && 0 <= toint(x) && toint(x) < 9223372036854775808
+//@ def idnotwo(x) = idnum(x) && inre(x, `0|1|[3-9]|[1-9][0-9]+`)
+//@ def idlist(w) = inre(w, `[0-9]+(, [0-9]+)*`) && forall(i, 0, splitlen(w, ","), isu64(trimspace(splitpiece(w, ",", i))))
+//@ def isu64(x) = inre(x, `[0-9]+`) && toint(x) < 18446744073709551616
+
 //@ func GateInstanceFromId(gateId string) (res Gate)
 //@   props C18
 //@   plain
-//@   flag trusted
-//@   ensures true
+//@   flag cover-each-case
+//@   logical fam int
+//@   logical maporder int
+//@   logical a string
+//@   logical b string
+//@   logical c string
+//@   logical w string
+//@   cases fam 0 25
+//@   cases maporder 0 15 quick 0 14
+//@   requires 0 <= fam && fam < 25 && 0 <= maporder && maporder < 15
+//@   requires implies(fam == 0, idnum(a) && gateId == concat("ArithmeticGate { num_ops: ", a, " }"))
+//@   requires implies(fam == 1, idnum(a) && gateId == concat("ArithmeticExtensionGate { num_ops: ", a, " }"))
+//@   requires implies(fam == 2, idnum(a) && idnum(b) && gateId == concat("BaseSumGate { num_limbs: ", a, " } + Base: ", b))
+//@   requires implies(fam == 3, idnum(a) && gateId == concat("ConstantGate { num_consts: ", a, " }"))
+//@   requires implies(fam == 4, idnum(a) && idnum(b) && toint(b) >= 2 && idlist(w) && gateId == concat("CosetInterpolationGate { subgroup_bits: ", a, ", degree: ", b, ", barycentric_weights: [", w, "], _phantom: PhantomData<plonky2_field::goldilocks_field::GoldilocksField> }<D=2>"))
+//@   requires implies(fam == 5, idnum(a) && gateId == concat("ExponentiationGate { num_power_bits: ", a, ", _phantom: PhantomData<plonky2_field::goldilocks_field::GoldilocksField> }<D=2>"))
+//@   requires implies(fam == 6, idnum(a) && gateId == concat("MulExtensionGate { num_ops: ", a, " }"))
+//@   requires implies(fam == 7, gateId == "NoopGate")
+//@   requires implies(fam == 8, gateId == "PoseidonGate(PhantomData<plonky2_field::goldilocks_field::GoldilocksField>)<WIDTH=12>")
+//@   requires implies(fam == 9, gateId == "PoseidonMdsGate(PhantomData<plonky2_field::goldilocks_field::GoldilocksField>)<WIDTH=12>")
+//@   requires implies(fam == 10, gateId == "PublicInputGate")
+//@   requires implies(fam == 11, idnum(a) && idnum(b) && idnum(c) && gateId == concat("RandomAccessGate { bits: ", a, ", num_copies: ", b, ", num_extra_constants: ", c, ", _phantom: PhantomData<plonky2_field::goldilocks_field::GoldilocksField> }<D=2>"))
+//@   requires implies(fam == 12, idnum(a) && gateId == concat("ReducingExtensionGate { num_coeffs: ", a, " }"))
+//@   requires implies(fam == 13, idnum(a) && gateId == concat("ReducingGate { num_coeffs: ", a, " }"))
+//@   requires implies(fam == 14, inre(gateId, `LookupGate \{ num_slots: [0-9]+, lut_hash: \[[0-9, ]*\] \}`))
+//@   requires implies(fam == 15, inre(gateId, `LookupTableGate \{ num_slots: [0-9]+, lut_hash: \[[0-9, ]*\], last_lut_row: [0-9]+ \}`))
+//@   requires implies(fam == 16, inre(gateId, `U32ArithmeticGate \{ num_ops: [0-9]+, _phantom: PhantomData<([a-z0-9_]+::)*GoldilocksField> \}`))
+//@   requires implies(fam == 17, inre(gateId, `U32AddManyGate \{ num_addends: [0-9]+, num_ops: [0-9]+, _phantom: PhantomData<([a-z0-9_]+::)*GoldilocksField> \}`))
+//@   requires implies(fam == 18, inre(gateId, `U32SubtractionGate \{ num_ops: [0-9]+, _phantom: PhantomData<([a-z0-9_]+::)*GoldilocksField> \}`))
+//@   requires implies(fam == 19, inre(gateId, `ComparisonGate \{ num_bits: [0-9]+, num_chunks: [0-9]+, _phantom: PhantomData<([a-z0-9_]+::)*GoldilocksField> \}<D=[0-9]+>`))
+//@   requires implies(fam == 20, inre(gateId, `U32RangeCheckGate \{ num_input_limbs: [0-9]+, _phantom: PhantomData<([a-z0-9_]+::)*GoldilocksField> \}`))
+//@   requires implies(fam == 21, inre(gateId, `(U32InterleaveGate|UninterleaveToU32Gate|UninterleaveToB32Gate) \{ num_ops: [0-9]+ \}`))
+//@   requires implies(fam == 22, idnum(a) && idnotwo(b) && gateId == concat("ExponentiationGate { num_power_bits: ", a, ", _phantom: PhantomData<plonky2_field::goldilocks_field::GoldilocksField> }<D=", b, ">"))
+//@   requires implies(fam == 23, idnum(a) && idnum(b) && idnum(c) && idnotwo(w) && gateId == concat("RandomAccessGate { bits: ", a, ", num_copies: ", b, ", num_extra_constants: ", c, ", _phantom: PhantomData<plonky2_field::goldilocks_field::GoldilocksField> }<D=", w, ">"))
+//@   requires implies(fam == 24, idnum(a) && idnum(b) && idnotwo(c) && idlist(w) && gateId == concat("CosetInterpolationGate { subgroup_bits: ", a, ", degree: ", b, ", barycentric_weights: [", w, "], _phantom: PhantomData<plonky2_field::goldilocks_field::GoldilocksField> }<D=", c, ">"))
+//@   refusal_implies fam >= 14
+//@   ensures fam < 14
+//@   ensures implies(fam == 0, dyntype(res) == "*gates.ArithmeticGate" && res.numOps == toint(a))
+//@   ensures implies(fam == 1, dyntype(res) == "*gates.ArithmeticExtensionGate" && res.numOps == toint(a))
+//@   ensures implies(fam == 2, dyntype(res) == "*gates.BaseSumGate" && res.numLimbs == toint(a) && res.base == toint(b))
+//@   ensures implies(fam == 3, dyntype(res) == "*gates.ConstantGate" && res.numConsts == toint(a))
+//@   ensures implies(fam == 4, dyntype(res) == "*gates.CosetInterpolationGate" && res.subgroupBits == toint(a) && res.degree == toint(b))
+//@   ensures implies(fam == 5, dyntype(res) == "*gates.ExponentiationGate" && res.numPowerBits == toint(a))
+//@   ensures implies(fam == 6, dyntype(res) == "*gates.MultiplicationExtensionGate" && res.numOps == toint(a))
+//@   ensures implies(fam == 7, dyntype(res) == "*gates.NoopGate")
+//@   ensures implies(fam == 8, dyntype(res) == "*gates.PoseidonGate")
+//@   ensures implies(fam == 9, dyntype(res) == "*gates.PoseidonMdsGate")
+//@   ensures implies(fam == 10, dyntype(res) == "*gates.PublicInputGate")
+//@   ensures implies(fam == 11, dyntype(res) == "*gates.RandomAccessGate" && res.bits == toint(a) && res.numCopies == toint(b) && res.numExtraConstants == toint(c))
+//@   ensures implies(fam == 12, dyntype(res) == "*gates.ReducingExtensionGate" && res.numCoeffs == toint(a))
+//@   ensures implies(fam == 13, dyntype(res) == "*gates.ReducingGate" && res.numCoeffs == toint(a))
+
+// the weight list is parsed piecewise (strings.Split / TrimSpace / ParseUint), all three uninterpreted here:
+// idlist(w) states as a premise that every trimmed piece is a decimal below 2^64 (true of the field elements
+// plonky2 prints); the parsed weight values themselves are not part of the proved statement
+//@ func deserializeCosetInterpolationGate(parameters map[string]string) (res Gate)
+//@   props C18
+//@   plain
+//@   flag inline-at-calls
+//@   loop 0 invariant -1 <= rangeindex && rangeindex < len(barycentricWeightsStr) && len(barycentricWeightsInt) == len(barycentricWeightsStr)
 
 //@ func NewEvaluateGatesChip(api frontend.API, gates []Gate, numGateConstraints uint64, selectorsInfo SelectorsInfo) (res *EvaluateGatesChip)
 //@   props C16
